@@ -194,6 +194,10 @@ def from_world(v):
         return [from_world(x) for x in v]
     if callable(v) and hasattr(v, "_world_name"):
         return "<function " + v._world_name + " of the world>"
+    if isinstance(v, types.MethodType):
+        # a bound method as a VALUE (`seq.Where` not called): two evaluations make two method objects of two equal
+        # receivers - compared by name and receiver value, not by identity
+        return ("<bound method>", getattr(v.__func__, "__qualname__", "?"), from_world(v.__self__))
     return v
 
 
